@@ -92,6 +92,30 @@ func ZZ_C13_W12() {
 		got := new(uint256.Int).Sub(w.cumulated(i), before[i])
 		zzverif.Assert(got.Eq(want[i]), "W1/W2 reward = sum over the owner's stakes (at the power-basis height) bonded to signing validators of power x rewardPerPower")
 	}
+	if h == 2 {
+		// the next block, after the governance parameter rewardPerPower changed (same
+		// parameter version): rewards follow the parameter in force, not an earlier one
+		_, _, _ = w.sc.Commit()
+		w.gov.rewardPerPower = zzverif.NondetU256Below("gov.rewardPerPower.2", new(uint256.Int).Lsh(uint256.NewInt(1), 64))
+		for i := 0; i < 3; i++ {
+			before[i] = w.cumulated(i)
+		}
+		_, xerr = w.sc.BeginBlock(zzBlockCtx(h+1, w.gov, w.accts, w.sc, votes, nil))
+		zzverif.Assert(xerr == nil, "W1 second BeginBlock succeeds")
+		for i := 0; i < 3; i++ {
+			want[i] = new(uint256.Int)
+		}
+		for _, r := range basis {
+			if signed[r.to] && match[r.to] && total(r.to) > 0 {
+				want[r.from].Add(want[r.from], new(uint256.Int).Mul(uint256.NewInt(uint64(r.power)), w.gov.RewardPerPower()))
+			}
+		}
+		for i := 0; i < 3; i++ {
+			got := new(uint256.Int).Sub(w.cumulated(i), before[i])
+			zzverif.Assert(got.Eq(want[i]), "W1 after a parameter change the reward is power x the rewardPerPower now in force")
+		}
+		zzverif.Reach("W12 second block")
+	}
 	zzverif.Event("W12", h, signed[0], signed[1], match[0], match[1])
 	zzverif.Reach("W12 end")
 }
